@@ -184,6 +184,10 @@ func registerWorldProp(p *WorldProp) { worldProps[p.ID] = p }
 
 // runCase executes one case. next returns the next action or ok=false.
 func runCase(t failer, p *WorldProp, cfg sim.Config, next func(m *Machine, i int) (Action, bool)) {
+	runCaseM(t, p, cfg, next)
+}
+
+func runCaseM(t failer, p *WorldProp, cfg sim.Config, next func(m *Machine, i int) (Action, bool)) (mm *Machine) {
 	invs := p.Invariants()
 	cf := &CaseFile{Property: p.ID, Config: cfg}
 	lastCase = cf
@@ -202,10 +206,10 @@ func runCase(t failer, p *WorldProp, cfg sim.Config, next func(m *Machine, i int
 			statsMu.Lock()
 			st.Aborted++
 			statsMu.Unlock()
-			return
+			return nil
 		}
 		t.Fatalf("harness: cannot build machine: %v", err)
-		return
+		return nil
 	}
 	fail := func(err error) bool {
 		cf.Actions = m.Log
@@ -258,7 +262,7 @@ func runCase(t failer, p *WorldProp, cfg sim.Config, next func(m *Machine, i int
 		if err := m.Step(a); err != nil {
 			if fail(err) {
 				st.record(m, false, nil, "")
-				return
+				return m
 			}
 		}
 	}
@@ -267,7 +271,7 @@ func runCase(t failer, p *WorldProp, cfg sim.Config, next func(m *Machine, i int
 			if err := m.Step(a); err != nil {
 				if fail(err) {
 					st.record(m, false, nil, "")
-					return
+					return m
 				}
 			}
 		}
@@ -278,6 +282,7 @@ func runCase(t failer, p *WorldProp, cfg sim.Config, next func(m *Machine, i int
 		nt, classes = p.NonTrivial(m, invs)
 	}
 	st.record(m, nt, cf, shapeOf(m, classes...))
+	return m
 }
 
 func historyString(m *Machine) string {
@@ -341,12 +346,15 @@ func replayFile(t *testing.T, p *WorldProp, path string) {
 	tail := p.Tail
 	p.Tail = nil
 	defer func() { p.Tail = tail }()
-	runCase(t, p, cf.Config, func(m *Machine, i int) (Action, bool) {
+	m := runCaseM(t, p, cf.Config, func(m *Machine, i int) (Action, bool) {
 		if i >= len(cf.Actions) {
 			return Action{}, false
 		}
 		return cf.Actions[i], true
 	})
+	if m != nil {
+		fmt.Printf("replayed without violation; history: %s\n", historyString(m))
+	}
 }
 
 // knownFindings are loaded from /verif/known_findings.txt (never written at run time).
